@@ -21,6 +21,8 @@ QUERIES = [
  mk('limit_nop_unexecuted', 'op==0x61', 0, 1, ['H_EXEC=0', 'H_CANARY_ERR', 'H_LIM_OPS']),                 # counted even in an unexecuted branch
 ]
 # numeric operand size limits (4 bytes, 5 for lock-time operands) are clauses of the step contracts; re-check them here
+from props import C02
+QUERIES += [q for q in C02.QUERIES if q.tier == 'quick' and re.match(r'sig_multisig_(counts|0of0|1of0)$', q.name)]   # 20-key limit and the op-count charge of the key count
 QUERIES += [L.CTOR, L.END_OF_SCRIPT]   # 10,000-byte script rule at session construction (tapscript exempt); op count restarts at every script switch
 QUERIES += [q for q in C01.QUERIES if q.tier == 'quick' and re.match(r'step_(addsub_93|unary_8b|within_a5|cltv_b1|csv_b2|pickroll_79_n2)$', q.name)]
 META = {
@@ -28,14 +30,14 @@ META = {
  'trusted_base': TRUSTED,
  'assumptions': ASSUME_COMMON + [
    "the 520-byte push boundary is decided on push LENGTHS 515..525 without modelling the payload bytes beyond the element storage",
-   "multisig key-count limit and its op-count charge are decided under C02",
+   "multisig: the key-count limit (0..20) and the charge of the key count to the operation counter are decided by the C02 multisig queries re-run here (counts, 0-of-0, 1-of-0)",
    "script-size rule: decided on script LENGTHS 0..20000 at session construction without modelling bytes beyond the stored prefix",
  ],
  'explanation': 'boundary contracts of the real StepScript: for each limit the query admits L-1, L and L+1 (witnessed by canaries) and the ensures clause pins success/success/specific error; depth, counts and flags symbolic',
 }
 MANIFEST = {
  'text': 'Deductive check that the real interpreter step enforces the consensus limits at exactly their boundaries: 520-byte pushes (519..521 executed and unexecuted), 1000 combined stack+altstack items (999/1000/1001 through growing, moving and multi-item operations, at every depth split between the two stacks), 201 counted operations for legacy/v0 with tapscript exempt and OP_1..16 uncounted, 4-byte numeric operands (5 for CLTV/CSV), 10,000-byte legacy/v0 scripts at session construction with tapscript exempt, op count restarting at each script switch. Reachability of L-1, L and L+1 is witnessed in every query.',
- 'note': 'Multisig key count / op-count charge: C02. Element storage bounded to 16 bytes in these queries (limits are about counts and lengths).',
+ 'note': ' Element storage bounded to 16 bytes in these queries (limits are about counts and lengths).',
  'technique': 'assume/assert boundary contracts of the real StepScript discharged by CBMC over symbolic depths and counts, with must-fail canaries witnessing both sides of each limit',
  'design_ref': 'DESIGN.md 6 (C10)',
 }
